@@ -59,6 +59,7 @@ impl<M: Matcher> Replacer<M> {
         // See the giant comment in 'find_iter_at_in_context' below for why we
         // do this dance.
         let is_multi_line = searcher.multi_line_with_matcher(&matcher);
+        let ends_unterminated = ends_unterminated(searcher, haystack, &range);
         if is_multi_line {
             if haystack[range.end..].len() >= MAX_LOOK_AHEAD {
                 haystack = &haystack[..range.end + MAX_LOOK_AHEAD];
@@ -82,6 +83,7 @@ impl<M: Matcher> Replacer<M> {
                 matcher,
                 haystack,
                 range.clone(),
+                ends_unterminated,
                 caps,
                 dst,
                 |caps, dst| {
@@ -499,6 +501,7 @@ where
     // shouldn't be involved in this business in the first place. Sigh. Live
     // and learn. Abstraction boundaries are hard.
     let is_multi_line = searcher.multi_line_with_matcher(&matcher);
+    let ends_unterminated = ends_unterminated(searcher, bytes, &range);
     if is_multi_line {
         if bytes[range.end..].len() >= MAX_LOOK_AHEAD {
             bytes = &bytes[..range.end + MAX_LOOK_AHEAD];
@@ -513,12 +516,28 @@ where
     }
     matcher
         .find_iter_at(bytes, range.start, |m| {
-            if m.start() >= range.end {
+            if m.start() >= range.end
+                && !(ends_unterminated && m.start() == range.end)
+            {
                 return false;
             }
             matched(m)
         })
         .map_err(io::Error::error_message)
+}
+
+/// Returns true when the given range ends the haystack without a line
+/// terminator, i.e., when it ends with the final, unterminated line. Only in
+/// that case does a match starting exactly at the end of the range (which is
+/// necessarily empty) still belong to the range.
+fn ends_unterminated(
+    searcher: &Searcher,
+    bytes: &[u8],
+    range: &std::ops::Range<usize>,
+) -> bool {
+    range.end == bytes.len()
+        && range.start < range.end
+        && !searcher.line_terminator().is_suffix(&bytes[..range.end])
 }
 
 /// Given a buf and some bounds, if there is a line terminator at the end of
@@ -546,6 +565,7 @@ fn replace_with_captures_in_context<M, F>(
     matcher: M,
     bytes: &[u8],
     range: std::ops::Range<usize>,
+    ends_unterminated: bool,
     caps: &mut M::Captures,
     dst: &mut Vec<u8>,
     mut append: F,
@@ -557,7 +577,9 @@ where
     let mut last_match = range.start;
     matcher.captures_iter_at(bytes, range.start, caps, |caps| {
         let m = caps.get(0).unwrap();
-        if m.start() >= range.end {
+        if m.start() >= range.end
+            && !(ends_unterminated && m.start() == range.end)
+        {
             return false;
         }
         dst.extend(&bytes[last_match..m.start()]);
